@@ -275,7 +275,11 @@ def extract(tree):
     flags["threadSchedulesMainWithValue"] = bool(re.search(r"fiber->supervisor_channel\s*=\s*janet_vm\.user\s*;\s*janet_schedule\s*\(\s*fiber\s*,\s*value\s*\)\s*;\s*janet_loop\s*\(\s*\)\s*;", go))
     # ---- supervisor events are mode-2 pushes (Model.lean `giveNB`); ev/give-supervisor is an ordinary give
     flags["supervisorEventIsMode2Push"] = bool(
-        re.search(r"janet_channel_push\s*\(\s*chan\s*,\s*make_supervisor_event\s*\(\s*janet_signal_names\[sig\]\s*,\s*task\.fiber\s*,\s*chan->is_threaded\s*\)\s*,\s*2\s*\)", l1)
+        # either the plain mode-2 push, or (since repo 046c08b) lock; closed -> no push (the model's `giveNB` on a closed
+        # channel is a no-op); else push_with_lock mode 2
+        (re.search(r"janet_channel_push\s*\(\s*chan\s*,\s*make_supervisor_event\s*\(\s*janet_signal_names\[sig\]\s*,\s*task\.fiber\s*,\s*chan->is_threaded\s*\)\s*,\s*2\s*\)", l1)
+         or re.search(r"janet_chan_lock\s*\(\s*chan\s*\)\s*;\s*if\s*\(\s*chan->closed\s*\)\s*\{\s*janet_chan_unlock\s*\(\s*chan\s*\)\s*;.*?\}\s*else\s*\{\s*"
+                      r"janet_channel_push_with_lock\s*\(\s*chan\s*,\s*make_supervisor_event\s*\(\s*janet_signal_names\[sig\]\s*,\s*task\.fiber\s*,\s*chan->is_threaded\s*\)\s*,\s*2\s*\)\s*;\s*\}", l1, re.S))
         and re.search(r"janet_channel_push\s*\(\s*\(\s*JanetChannel\s*\*\s*\)\s*supervisor\s*,[^;]*,\s*2\s*\)\s*;", go))
     gs = _corefn_body(ev, "cfun_ev_give_supervisor")
     flags["giveSupervisorIsGive"] = bool(re.search(r"if\s*\(\s*janet_channel_push\s*\(\s*chan\s*,[^;]*,\s*0\s*\)\s*\)\s*\{\s*janet_await\s*\(\s*\)\s*;", gs))
